@@ -472,7 +472,7 @@ def shared(tier, seed):
     def build(d):
         pop = E.population(tier, seed)
         log("lexer: %d definitions" % len(pop))
-        s = analyse(pop, tier, compiled_limit=14 if tier == "quick" else 70,
+        s = analyse(pop, tier, compiled_limit=14 if tier == "quick" else 120,
                     lex_prefixes="FLM" if tier == "quick" else "FLMG")
         log("lexer: timing %s" % s["timing"])
         with open(os.path.join(d, "summary.json"), "w") as f:
@@ -491,6 +491,8 @@ TRUSTED = ["TLC evaluates spec/Regex.tla and spec/Lexer.tla faithfully",
 
 
 def _report_dis(rep, s, prop):
+    # the shared run may come from the artefact cache; this is what it cost when it was made
+    rep.add(shared_run_wall_s=s["timing"].get("total", 0.0), shared_run_timing=s["timing"])
     for d in s["disagreements"]:
         if d["prop"] == prop and "definition" in d:
             rep.violation(d["key"], d["what"], {"engine": "lexer", "property": prop, "definition": d["definition"],
@@ -528,10 +530,14 @@ def c08_lexer_part(rep, tier, seed):
 def check_C08(tier, seed):
     rep = Report("C08", tier, "model_checking", seed)
     c08_lexer_part(rep, tier, seed)
-    rep.assumptions = TRUSTED + ["only the lexer half of C08 is built here (LexProgress, real Matcher under a step budget and a "
-                                 "watchdog); the parser half (LRMachine Progress) is a separate engine"]
+    import c_core
+    c_core.c08_parser_part(rep, tier, seed)
+    rep.assumptions = TRUSTED + ["parser half: LRMachine.tla (runtime driver incl. error recovery and the accepts() simulation) over "
+                                 "the exported tables with StepBound / AcceptsTerminates as invariants, every behaviour replayed "
+                                 "through the compiled parsers under catch_unwind, a pull budget and a watchdog (engine core)"]
     return rep.finish(
-        rule="every string up to N over the representatives of every generated lexer definition, through the real Matcher "
+        rule="parser half: every token sequence up to the bound for every grammar of the core batch (with and without `!`), "
+             "table-driven and recursive ascent; lexer half: every string up to N over the representatives of every generated lexer definition, through the real Matcher "
              "(step budget len+2, watchdog) and through compiled generated parsers; LexProgress model-checked for the repaired "
              "(ZeroLenIsError) and the as-is tokenizer machine; a case is one (definition, string)")
 
